@@ -3,3 +3,5 @@ import PvModel.Props.C12
 #print axioms Pv.C12_empty
 #print axioms Pv.C12_single
 #print axioms Pv.C12_answers_tree
+#print axioms Pv.C12_order_irrelevant
+#print axioms Pv.C12_reverse
